@@ -18,8 +18,11 @@ REPLAYS = os.path.join(VERIF, "replays")
 KNOWN = os.path.join(VERIF, "known_findings.json")
 
 
-def _child(conn, target, kwargs, mem_gb):
+def _child(conn, target, kwargs, mem_gb, timeout=None):
     try:
+        if timeout:
+            # soft deadline: explorers stop opening new paths shortly before the hard kill, so a long job reports what it did
+            os.environ["SYMX_DEADLINE"] = str(time.time() + 0.85 * timeout)
         try:
             resource.setrlimit(resource.RLIMIT_AS, (mem_gb << 30, mem_gb << 30))
         except Exception:
@@ -54,7 +57,7 @@ def run_jobs(jobs, nproc=None, seed=0, mem_gb=10):
         while pending and len(running) < nproc:
             i = pending.pop(0)
             pc, cc = ctx.Pipe(duplex=False)
-            p = ctx.Process(target=_child, args=(cc, jobs[i]["target"], jobs[i].get("kwargs", {}), mem_gb))
+            p = ctx.Process(target=_child, args=(cc, jobs[i]["target"], jobs[i].get("kwargs", {}), mem_gb, jobs[i].get("timeout", 60)))
             p.start()
             cc.close()
             running[i] = (p, pc, time.time())
